@@ -28,6 +28,17 @@ inline function type must be the model's, and an overwrite between two inline fu
 name leaves out>` (Dom clauses, findings) — or `overwrite:anonymous-signature:<component>` when the two types must have
 different names (theorems `anonName_encodes_throws`, `anonName_bare_throws_distinct`): never a finding.
 
+Qualified references (`qualified_case`): the synthetic name spells a type reference as it is written, so `(v: model.user)` is named
+`function_…_model.user_void` — a declaration name with dots. Families whose members differ in one namespace-qualified reference only
+(relative `model.user`, absolute `.model.user`, partially qualified `util.local.user` / `shared.user`, one to three components; as a
+parameter, the last parameter, the returned type, a generic argument, a thrown error domain): three types of one namespace under one
+spelling of the prefix (the names agree up to the last dot) and two under another prefix / another spelling; and families of the other
+stream over a base signature whose first parameter is a qualified reference (the varied component stands behind a dotted name). The
+helper namespaces are declared in the program. Theorems `header_keeps_stem`, `objc_source_same_namespace_injective` (the extension is
+appended to the whole converted name), `anonName_flat_injective`, `qualified_signatures_distinct_files`. An overwritten path that the
+model does not predict is `overwrite:unexplained`; the report names the declarations whose own predicted files were not written
+(`byDecl` of `c15.names`).
+
 Specification on the implementation's observation (`c15.spec`, Lean): no path with two different
 digests in the log of one run. The shape signature of a failure is `overwrite:<cause>` as classified by
 the model (`namespace-dropped` carries the generator).
@@ -70,6 +81,10 @@ THEOREMS = [
     "Pydjinni.GenC.anonName_optional_dropped",
     "Pydjinni.GenC.anonName_join_ambiguous",
     "Pydjinni.GenC.anonName_nested_function_dropped",
+    "Pydjinni.GenC.objc_source_same_namespace_injective",
+    "Pydjinni.GenC.header_keeps_stem",
+    "Pydjinni.GenC.anonName_flat_injective",
+    "Pydjinni.GenC.qualified_signatures_distinct_files",
     "Pydjinni.GenC.no_collisions_nodup",
     "Pydjinni.GenC.nodup_noOverwrite",
     "Pydjinni.SysC.write_unconditional",
@@ -265,15 +280,130 @@ def family(r: random.Random, dim: str) -> list[dict]:
     raise ValueError(dim)
 
 
+# -------------------------------------------------------------------------------------------------
+# namespace-qualified references inside inline signatures: the synthetic name spells a reference as it is written — dots included —
+# and every generator builds its file names from that name
+# -------------------------------------------------------------------------------------------------
+
+QUAL_TYPES = ["user", "group", "item", "node"]       # records of a helper namespace
+QUAL_ERRORS = ["oops", "fail", "gone"]               # error domains of a helper namespace
+QUAL_POSITIONS = ["parameter", "last-parameter", "return", "generic-argument", "throws"]
+HOMES = [(), ("net",), ("core", "util")]
+
+
+def qualified_helper(last: str) -> str:
+    return f"{last} = error {{ c; }}" if last in QUAL_ERRORS else f"{last} = record {{ v: i32; }}"
+
+
+def qualified_prefixes(home: tuple, everywhere: bool) -> list[tuple]:
+    """(prefix as spelled, namespace it denotes) for references to the helper namespaces: relative (found by climbing to the root) and
+    absolute (leading dot), one to three components deep; and, unless the references have to resolve from `everywhere`, partially
+    qualified ones: a namespace inside `home` spelled from `home`, from the enclosing namespace and in full, a sibling of `home`"""
+    out = [("model", "model"), (".model", "model"), ("model.deep", "model.deep"), (".model.deep", "model.deep"), ("v2.api.dto", "v2.api.dto")]
+    if not everywhere:
+        full = ".".join(home + ("local",))
+        out += [("local", full), ("." + full, full)]
+        if home:
+            sib = ".".join(home[:-1] + ("shared",))
+            out += [(home[-1] + ".local", full), (full, full), ("shared", sib), ("." + sib, sib), (sib, sib)]
+    seen, res = set(), []
+    for sp, ns in out:
+        if sp not in seen:
+            seen.add(sp)
+            res.append((sp, ns))
+    return res
+
+
+def qualified_family(r: random.Random, prefixes: list[tuple]) -> list[dict]:
+    """one base signature; the members differ in one qualified reference only: three types of one namespace under one spelling of the
+    prefix (they differ behind the last dot only) and two under another prefix / another spelling of the same namespace"""
+    import copy
+    b = base_sig(r)
+    if not b["params"]:
+        b["params"] = [{"name": "a0", "type": T(r.choice(["i32", "string", "foo"]))}]
+    pos = r.choice(QUAL_POSITIONS)
+    k = r.randrange(len(b["params"]))
+    wrap = r.choice([lambda t: T("list", t), lambda t: T("map", T("string"), t), lambda t: T("list", T("list", t)), lambda t: T("map", t, T("i32"))])
+    out = []
+    for j, (sp, ns) in enumerate(r.sample(prefixes, 2)):
+        for last in r.sample(QUAL_ERRORS if pos == "throws" else QUAL_TYPES, 3 if j == 0 else 2):
+            v = copy.deepcopy(b)
+            v["needs"] = [ns + "." + last]
+            t = T(sp + "." + last)
+            if pos == "parameter":
+                v["params"][k]["type"] = t
+            elif pos == "last-parameter":
+                v["params"].append({"name": "z9", "type": t})
+            elif pos == "return":
+                v["ret"] = t
+            elif pos == "generic-argument":
+                v["params"][k]["type"] = wrap(t)
+            else:
+                v["throws"] = [sp + "." + last]
+            out.append(v)
+    return out
+
+
+def qualify(members: list[dict], r: random.Random, prefixes: list[tuple]):
+    """the same qualified reference as first parameter of every member: the component the family varies stands behind a dotted name"""
+    sp, ns = r.choice(prefixes)
+    last = r.choice(QUAL_TYPES)
+    for m in members:
+        m["params"].insert(0, {"name": "q0", "type": T(sp + "." + last)})
+        m["needs"] = list(m.get("needs", ())) + [ns + "." + last]
+
+
+def place_family(r: random.Random, members: list, home: tuple, layout: str):
+    if layout in ("one-interface", "interfaces"):
+        places = [home] * len(members)
+    else:
+        others = [home + ("inner",), ("side",), home[:-1]] if layout == "spread-deep" else [("side",), home + ("inner",)]
+        places = [home if i % 3 != 2 else others[(i // 3) % len(others)] for i in range(len(members))]
+    tg = r.choice([" +cpp", " +cpp", " +java +objc +cppcli", ""])
+    return write_family_program(members, places, home, tg, layout == "one-interface", {i for i in range(len(members)) if r.random() < 0.2})
+
+
+def qualified_case(seed_key: str, i: int):
+    """even cases: a family that varies one qualified reference; odd cases: a family of the other stream (one varied component) over
+    a base signature whose first parameter is a qualified reference. Layout x home namespace rotate."""
+    r = random.Random(seed_key)
+    layout = FAMILY_LAYOUTS[(i + i // len(FAMILY_LAYOUTS)) % len(FAMILY_LAYOUTS)]
+    home = HOMES[(i // 2 + i // 6) % len(HOMES)]
+    prefixes = qualified_prefixes(home, layout in ("spread", "spread-deep"))
+    if i % 2 == 0:
+        dims = ["qualified"]
+        members = [("qualified", m) for m in qualified_family(r, prefixes)]
+    else:
+        over = [d for d in FAMILY_DIMS if d != "join"]
+        dims = [over[(i // 2) % len(over)], "qualified-base"]
+        fam = family(r, dims[0])
+        r.shuffle(fam)
+        fam = fam[:4]
+        qualify(fam, r, prefixes)
+        members = [(dims[0], m) for m in fam]
+    text, sigs = place_family(r, members, home, layout)
+    naming = "default" if i % 3 else "random"
+    opts = sysgen.make_options(r, sysgen.TARGETS, out_kind="rel", naming=naming, extras=False)
+    opts["generate"]["support_lib_sources"] = False
+    job = job_of({"proj/main.pydjinni": text}, "proj/main.pydjinni", opts, list(sysgen.TARGETS))
+    job["sigs"] = sigs
+    return job, {"stress": "family:" + "+".join(dims) + ":" + layout, "naming": naming, "targets": list(sysgen.TARGETS), "features": []}
+
+
 def write_family_program(members, places, home=(), tg=" +cpp", one_interface=False, as_return=()):
     """members [(component, signature)], places [namespace tuple] -> (text, [{line, ns, sig, dim}]): one block per namespace
     (`home` first), every inline function type on a line of its own, as a callback parameter or (`as_return`) a returned type"""
     names: set = set()
+    needs: set = set()
     for _, m in members:
         names.update(m["throws"] or ())
+        needs.update(m.get("needs", ()))
         for t in [p["type"] for p in m["params"]] + [m["ret"]]:
             mentioned(t, names)
     lines = [HELPERS[n] for n in HELPERS if n in names]
+    # the namespaced helper declarations that the qualified references of the signatures resolve to: one block per namespace
+    for ns in sorted({q.rsplit(".", 1)[0] for q in needs}):
+        lines.append(f"namespace {ns} {{ " + " ".join(qualified_helper(q.rsplit(".", 1)[1]) for q in sorted(needs) if q.rsplit(".", 1)[0] == ns) + " }")
     sigs = []
     order = sorted(range(len(members)), key=lambda i: (places[i] != home, places[i]))
     cur, open_iface, n_if, in_iface = None, False, 0, 0
@@ -317,14 +447,7 @@ def family_program(r: random.Random, dims: list[str], layout: str):
         fam = family(r, d)
         r.shuffle(fam)
         members += [(d, m) for m in fam[: r.choice([3, 4, 6])]]
-    home = r.choice([(), ("net",), ("core", "util")])
-    if layout in ("one-interface", "interfaces"):
-        places = [home] * len(members)
-    else:
-        others = [home + ("inner",), ("side",), home[:-1]] if layout == "spread-deep" else [("side",), home + ("inner",)]
-        places = [home if i % 3 != 2 else others[(i // 3) % len(others)] for i in range(len(members))]
-    tg = r.choice([" +cpp", " +cpp", " +java +objc +cppcli", ""])
-    return write_family_program(members, places, home, tg, layout == "one-interface", {i for i in range(len(members)) if r.random() < 0.2})
+    return place_family(r, members, r.choice(HOMES), layout)
 
 
 _I32, _BOOL = T("i32"), T("bool")
@@ -343,6 +466,19 @@ FAMILY_CORPUS = [
      "members": [("nested-function", sig([("f", {"fn": "(v: i32)"})])), ("nested-function", sig([("f", {"fn": "(v: string)"})]))]},
     {"name": "foo, bar / foo_bar", "ns": ("net",),
      "members": [("join", sig([("a", T("foo")), ("b", T("bar"))])), ("join", sig([("a", T("foo_bar"))]))]},
+    # qualified references: the names differ behind the last dot only / in the spelling of the prefix / behind a dotted name
+    {"name": "model.user / model.group / .model.user", "ns": ("app",),
+     "members": [("qualified", {**sig([("v", T("model.user"))]), "needs": ["model.user"]}), ("qualified", {**sig([("v", T("model.group"))]), "needs": ["model.group"]}),
+                 ("qualified", {**sig([("v", T(".model.user"))]), "needs": ["model.user"]})]},
+    {"name": "returns bool / i32 / nothing behind a qualified parameter", "ns": ("core", "util"),
+     "members": [("return", {**sig([("v", T("util.local.item"))], _BOOL), "needs": ["core.util.local.item"]}),
+                 ("return", {**sig([("v", T("util.local.item"))], _I32), "needs": ["core.util.local.item"]}),
+                 ("return", {**sig([("v", T("util.local.item"))]), "needs": ["core.util.local.item"]})]},
+    {"name": "throws model.deep.oops / model.deep.fail, returns list<shared.node> / list<shared.user>", "ns": ("net",),
+     "members": [("qualified", {**sig([("x", _I32)], throws=["model.deep.oops"]), "needs": ["model.deep.oops"]}),
+                 ("qualified", {**sig([("x", _I32)], throws=["model.deep.fail"]), "needs": ["model.deep.fail"]}),
+                 ("qualified", {**sig([("x", _I32)], T("list", T("shared.node"))), "needs": ["shared.node"]}),
+                 ("qualified", {**sig([("x", _I32)], T("list", T("shared.user"))), "needs": ["shared.user"]})]},
 ]
 
 
@@ -439,6 +575,7 @@ def evaluate(ctx, job, meta, obs, tables, answers=None):
     by_path = {}
     for c in m["collisions"]:
         by_path.setdefault(c["path"], []).append(c)
+    written = {e[0] for e in log}
     for p in s["overwritten"]:
         cs = [c for c in by_path.get(p, []) if c["cause"] != "duplicate-declaration"] or by_path.get(p, [])
         if not cs:
@@ -446,7 +583,17 @@ def evaluate(ctx, job, meta, obs, tables, answers=None):
             if moved:
                 why = " — declared in one namespace, generated under another: " + ", ".join(
                     f"{qn(sdefs, i)} ({pdefs[i]['src']['file']}:{pdefs[i]['src']['line']}) as {qn(pdefs, i)}" for i in moved[:3])
-            fails.append({"key": "overwrite:unexplained", "detail": p + why, "path": p})
+            # the declarations behind it: those whose own (predicted) file of that generator and directory was never written
+            extra = {}
+            gone = [(i, q) for i, g, q in m.get("byDecl", ()) if q not in written and q.rsplit("/", 1)[0] == p.rsplit("/", 1)[0]]
+            if gone and not moved:
+                lost = []
+                for i, q in gone[:4]:
+                    k = sig_of.get(i)
+                    lost.append(f"{qn(sdefs, i)}" + (f" = `{spell_sig(job['sigs'][k]['sig'])}` (line {job['sigs'][k]['line']})" if k is not None else "") + f", expected at {q}")
+                why += " — receives the files of declarations with different names, whose own files were not written: " + "; ".join(lost)
+                extra = {"declarations": [qn(sdefs, i) for i, _ in gone[:8]], "expected_paths": [q for _, q in gone[:8]]}
+            fails.append({"key": "overwrite:unexplained", "detail": p + why, "path": p, **extra})
             continue
         c = cs[0]
         key = f"overwrite:{c['g']}:namespace-dropped" if c["cause"] == "namespace-dropped" else \
@@ -510,6 +657,8 @@ def run(ctx):
         cases.append(make_case(f"{ctx.seed}/c15/{i}"))
     for i in range(ctx.n(36, 360)):
         cases.append(family_case(f"{ctx.seed}/c15/family/{i}", i))
+    for i in range(ctx.n(24, 240)):
+        cases.append(qualified_case(f"{ctx.seed}/c15/qualified/{i}", i))
     results = sysgen.run_jobs(ctx, [c[0] for c in cases], tag="c15")
     breaks = []
     for obs in results:
@@ -550,7 +699,10 @@ def run(ctx):
     ctx.assumptions += [
         "families of inline function types: base signatures of 0-2 parameters over primitives, list/set/map, a record, an enum; one varied component per family (" + ", ".join(FAMILY_DIMS) +
         "), every component due once per " + str(len(FAMILY_DIMS)) + " cases, a second family in every third program; helper types are declared at the top level and referred to by their "
-        "bare names (a dotted reference would put a '.' into the synthetic name); the written signature of a member is matched to the parser's declaration by its source line",
+        "bare names; the written signature of a member is matched to the parser's declaration by its source line",
+        "qualified-reference families: helper records " + ", ".join(QUAL_TYPES) + " and error domains " + ", ".join(QUAL_ERRORS) + " in the namespaces model, model.deep, v2.api.dto and (members of "
+        "one namespace only) <home>.local, <parent of home>.shared, referred to by relative / absolute / partially qualified spellings; one qualified reference varies (position: " +
+        ", ".join(QUAL_POSITIONS) + ") or stands in front of the varied component; home namespace (), net, core.util x the four layouts in rotation; no helper namespace shadows another",
         "one run = one API object, one parse, each target generated once; output directories of different generators are distinct",
         "contents are compared by sha256 of the bytes on disk right after each write (hook)",
     ]
